@@ -26,6 +26,14 @@ impl CloneUnrooted for InternedStr {
     }
 }
 
+#[cfg(gluon_verif)]
+impl InternedStr {
+    /// Verification hook: header address of the interned string object.
+    pub fn verif_addr(&self) -> usize {
+        self.0.verif_addr()
+    }
+}
+
 // InternedStr are explicitly scanned in the intern table so we can skip them when they are
 // encountered elsewhere
 unsafe impl Trace for InternedStr {
